@@ -111,22 +111,43 @@ static void check(ByteSource& in, CaseInfo& ci) {
 static void* lazy_alloc(size_t n) { void* p = mmap(nullptr, n ? n : 1, PROT_READ | PROT_WRITE, MAP_PRIVATE | MAP_ANONYMOUS | MAP_NORESERVE, -1, 0); return p == MAP_FAILED ? nullptr : p; }
 static void* lazy_realloc(void* o, size_t on, size_t nn) { void* p = lazy_alloc(nn); if (p && o) { memcpy(p, o, std::min<size_t>(std::min(on, nn), 4096)); munmap(o, on ? on : 1); } return p; }
 static void lazy_free(void* p, size_t n) { munmap(p, n ? n : 1); }
+// runs f in a forked child with stderr captured; exit codes of f: 0 = returned normally with an acceptable state, 7 = returned normally with an unacceptable state, 8 = no verdict
+struct ChildOut { int st = 0; std::string err; bool clean_abort() const { bool msg = err.find("overflow in mp") != std::string::npos || err.find("Cannot allocate memory") != std::string::npos || err.find("cannot allocate memory") != std::string::npos;
+    return msg && ((WIFSIGNALED(st) && WTERMSIG(st) == SIGABRT) || (WIFEXITED(st) && WEXITSTATUS(st) == 3)); }
+  bool exited(int c) const { return WIFEXITED(st) && WEXITSTATUS(st) == c; } };
+template <class F> static ChildOut run_child(F f) {
+  ChildOut o; int pfd[2]; if (pipe(pfd) != 0) { o.st = 8 << 8; return o; } fflush(nullptr); pid_t pid = fork(); if (pid < 0) { close(pfd[0]); close(pfd[1]); o.st = 8 << 8; return o; }
+  if (pid == 0) { close(pfd[0]); dup2(pfd[1], 2); _exit(f()); }
+  close(pfd[1]); char b[512]; ssize_t r; while ((r = read(pfd[0], b, sizeof b)) > 0) o.err.append(b, (size_t)r); close(pfd[0]); waitpid(pid, &o.st, 0); return o; }
 static void fixed_case(unsigned k, CaseInfo& ci) {
-  if (k != 0) return;
-  ci.desc = "mpz_init2(z, 2^37), mpz_realloc2(z, 2^37), _mpz_realloc(z, 2^31) on lazily mapped memory: abort with 'overflow in mpz type' or a well-formed object";
-  static const char* nm[3] = {"mpz_init2(z, 2^37)", "mpz_realloc2(z, 2^37)", "_mpz_realloc(z, 2^31)"};
-  for (int which = 0; which < 3; which++) {
-    int pfd[2]; REQUIRE(pipe(pfd) == 0, "pipe failed (harness)"); fflush(nullptr); pid_t pid = fork(); REQUIRE(pid >= 0, "fork failed (harness)");
-    if (pid == 0) { close(pfd[0]); dup2(pfd[1], 2); mp_set_memory_functions(lazy_alloc, lazy_realloc, lazy_free);
-      mpz_t z; const mp_bitcnt_t bits = (mp_bitcnt_t)1 << 37;
-      if (which == 0) mpz_init2(z, bits); else { mpz_init(z); if (which == 1) mpz_realloc2(z, bits); else _mpz_realloc(z, (mp_size_t)1 << 31); }
-      if (z->_mp_d == nullptr) _exit(8);                       /* address space refused: no verdict */
-      _exit((long)z->_mp_alloc >= ((long)1 << 31) && z->_mp_size == 0 ? 0 : 7); }
-    close(pfd[1]); std::string err; char b[512]; ssize_t r; while ((r = read(pfd[0], b, sizeof b)) > 0) err.append(b, (size_t)r); close(pfd[0]);
-    int st = 0; waitpid(pid, &st, 0);
-    bool clean_abort = err.find("overflow in mpz type") != std::string::npos && ((WIFSIGNALED(st) && WTERMSIG(st) == SIGABRT) || (WIFEXITED(st) && WEXITSTATUS(st) == 3));
-    bool ok_obj = WIFEXITED(st) && WEXITSTATUS(st) == 0; bool noverdict = WIFEXITED(st) && WEXITSTATUS(st) == 8;
-    REQUIRE(clean_abort || ok_obj || noverdict, "%s returned normally with an ill-formed object (_mp_alloc cannot hold 2^31: it is negative), or died otherwise (wait status 0x%x, stderr \"%.120s\"); acceptable: the overflow abort, or a well-formed object", nm[which], st, err.c_str());
+  if (k == 0) {
+    ci.desc = "mpz_init2(z, 2^37), mpz_realloc2(z, 2^37), _mpz_realloc(z, 2^31) on lazily mapped memory: abort with 'overflow in mpz type' or a well-formed object";
+    static const char* nm[3] = {"mpz_init2(z, 2^37)", "mpz_realloc2(z, 2^37)", "_mpz_realloc(z, 2^31)"};
+    for (int which = 0; which < 3; which++) {
+      ChildOut o = run_child([&]() -> int { mp_set_memory_functions(lazy_alloc, lazy_realloc, lazy_free); mpz_t z; const mp_bitcnt_t bits = (mp_bitcnt_t)1 << 37;
+        if (which == 0) mpz_init2(z, bits); else { mpz_init(z); if (which == 1) mpz_realloc2(z, bits); else _mpz_realloc(z, (mp_size_t)1 << 31); }
+        if (z->_mp_d == nullptr) return 8; return (long)z->_mp_alloc >= ((long)1 << 31) && z->_mp_size == 0 ? 0 : 7; });
+      REQUIRE(o.clean_abort() || o.exited(0) || o.exited(8), "%s returned normally with an ill-formed object (_mp_alloc cannot hold 2^31: it is negative), or died otherwise (wait status 0x%x, stderr \"%.120s\"); acceptable: the overflow abort, or a well-formed object", nm[which], o.st, o.err.c_str());
+    }
+  }
+  if (k == 1) {
+    // bit counts and exponents near the largest unsigned long: the result cannot be represented, so the only acceptable outcomes are a clean failure (the
+    // library's overflow / out-of-memory abort) or - for the allocation functions - an object that is well formed and keeps its value; never a
+    // wrapped-around size computation followed by a normal return or by writes outside the block
+    ci.desc = "mpz_realloc2 / mpz_init2 / mpf_init2 / mpz_urandomb / mpz_rrandomb with bit counts ULONG_MAX-10 and ULONG_MAX-62, mpz_ui_pow_ui(3, 11574427654092267712), (2^32)^(2^59+1): clean failure, or (allocation functions) a well-formed object with its value";
+    static const unsigned long BC[3] = {~0ul - 10, ~0ul - 62, ~0ul};
+    for (int which = 0; which < 7; which++) for (int bi = 0; bi < (which >= 5 ? 1 : 3); bi++) {
+      unsigned long bits = BC[bi]; static const char* nm[7] = {"mpz_realloc2(x = 5, bits)", "mpz_init2(x, bits)", "mpf_init2(f, bits)", "mpz_urandomb(r, state, bits)", "mpz_rrandomb(r, state, bits)", "mpz_ui_pow_ui(r, 3, 11574427654092267712)", "mpz_pow_ui(r, 2^32, 2^59+1)"};
+      ChildOut o = run_child([&]() -> int { mp_set_memory_functions(nullptr, nullptr, nullptr);
+        if (which == 0) { mpz_t x; mpz_init_set_ui(x, 5); mpz_realloc2(x, bits); return (mpz_cmp_ui(x, 5) == 0 && x->_mp_alloc >= 1) ? 0 : 7; }
+        if (which == 1) { mpz_t x; mpz_init2(x, bits); return 7; }                       /* 2^58 limbs cannot be recorded in the int field: a normal return is never right */
+        if (which == 2) { mpf_t f; mpf_init2(f, bits); return mpf_get_prec(f) >= 53 ? 7 : 7; }   /* nor can 2^58 limbs be allocated */
+        if (which == 3 || which == 4) { gmp_randstate_t st; gmp_randinit_default(st); mpz_t r; mpz_init(r); if (which == 3) mpz_urandomb(r, st, bits); else mpz_rrandomb(r, st, bits); return 7; }
+        if (which == 5) { mpz_t r; mpz_init(r); mpz_ui_pow_ui(r, 3, 11574427654092267712UL); return 7; }
+        mpz_t r, b; mpz_init(r); mpz_init_set_ui(b, 1); mpz_mul_2exp(b, b, 32); mpz_pow_ui(r, b, ((unsigned long)1 << 59) + 1); return 7; });
+      REQUIRE(o.clean_abort() || o.exited(0) || o.exited(8), "%s with bits = ULONG_MAX-%lu: neither a clean failure nor an acceptable object (wait status 0x%x: %s; stderr \"%.160s\")", nm[which], ~0ul - bits, o.st,
+              o.exited(7) ? "returned normally with a wrong value / unrepresentable request accepted" : "died without the library's overflow or out-of-memory message: memory error", o.err.c_str());
+    }
   }
 }
 namespace eng {
